@@ -77,7 +77,7 @@ class _CodeValidator(ast.NodeVisitor):
     self.verify(
         node,
         permissions.CodePermission.ASSIGN,
-        (ast.Assign),
+        (ast.Assign, ast.AugAssign, ast.AnnAssign, ast.NamedExpr),
         'Assignment is not allowed.',
     )
 
@@ -99,7 +99,8 @@ class _CodeValidator(ast.NodeVisitor):
     self.verify(
         node,
         permissions.CodePermission.EXCEPTION,
-        (ast.Try, ast.Raise, ast.Assert),
+        # TryStar (`except*`) is not supported until Python 3.11.
+        (ast.Try, getattr(ast, 'TryStar', None), ast.Raise, ast.Assert),
         'Exception is not allowed.',
     )
 
